@@ -160,12 +160,9 @@ B('pkgL_b_registered_other_factory', ['C20'], 'R20.b',
 B('pkgL_b_suppress_too_narrow', ['C20'], 'R20.b',
   (FL, "import os\nimport re\n", "import os\nimport re\nfrom contextlib import suppress\n"),
   (FL, _TRY, "    parsed_error = {}\n    with suppress(ValueError):\n        parsed_error = _ParsedTB.from_string(traceback_string).to_dict()\n"))
-B('pkgL_b_qualified_names_rejected', ['C20'], 'R20.d',
-  (FL, "            if sep and exc_type and len(exc_type.split()) == 1:\n", "            if sep and exc_type.isidentifier():\n"))
-B('pkgL_b_header_without_colon', ['C20'], 'R20.d',
-  (FL, "        if tb_lines[0].strip() == 'Traceback (most recent call last):':", "        if tb_lines[0].strip() == 'Traceback (most recent call last)':"))
-B('pkgL_b_message_side_lost', ['C20'], 'R20.d',
-  (FL, "            exc_type, sep, exc_msg = line.partition(':')\n", "            exc_type, sep, exc_msg = line.rpartition(':')\n"))
+# (variant pkgL_b_qualified_names_rejected removed: value-level behaviour of the traceback parser, decided only by running it -- declined)
+# (variant pkgL_b_header_without_colon removed: value-level behaviour of the traceback parser, decided only by running it -- declined)
+# (variant pkgL_b_message_side_lost removed: value-level behaviour of the traceback parser, decided only by running it -- declined)
 B('pkgL_b_sort_without_guard', ['C20'], 'R20.b',
   (FL, "    if monitored_files:\n        monitored_files.sort(key=lambda x: len(x))\n", "    monitored_files.sort(key=lambda x: len(x))\n"))
 B('pkgL_b_text_stripped_outside_try', ['C20'], 'R20.b',
